@@ -469,5 +469,191 @@ Proof.
     + pose proof HNL as N. rewrite EL in N. apply NoDup_mid in N. exact N.
 Qed.
 End Reader.
+Theorem reader_sees_sec : forall (t : tree) (stored : list nat) (s : store V),
+  Inv V ml mi t -> NoDup (ids V t) ->
+  no_embed_below V true stored t -> current V t stored s ->
+  (forall i, In i (ids V t) -> mem i stored = true \/
+             (exists r x items, t = Node r [(x, Leaf i items)])) ->
+  let fuel := S (length (ids V t)) in
+  load_items V fuel s (tid V t) = contents V t /\
+  reader_iter V fuel s (tid V t) = contents V t /\
+  exists p, load V fuel s (tid V t) = Some p /\ inv_stored p.
+Proof.
+  intros t stored s HI HN _ HC HE fuel.
+  destruct t as [i l|r kids]; [discriminate|].
+  assert (HR : mem r stored = true).
+  { destruct (HE r (or_introl eq_refl)) as [A|(r' & x & items & E)]; auto.
+    inversion E; subst. inversion HN; subst. simpl in *. tauto. }
+  assert (R : sget V s r = Some (getstate V stored (Node r kids) (Node r kids))).
+  { apply HC; auto. simpl. rewrite Nat.eqb_refl. reflexivity. }
+  change (tid V (Node r kids)) with r.
+  destruct kids as [|[x c] k'].
+  { subst fuel. simpl in R. rewrite load_items_S, load_S. unfold reader_iter, root_first.
+    rewrite R. repeat split; auto. eexists. split; [reflexivity|].
+    apply (api_trees_accepted V ml mi (Node r []) HI). }
+  assert (D : (exists l items, c = Leaf l items /\ k' = [] /\ mem l stored = false) \/
+              (forall i, In i (ids V (Node r ((x, c) :: k'))) -> mem i stored = true)).
+  { destruct c as [l items|j k2].
+    - destruct k' as [|sc2 k''].
+      + destruct (mem l stored) eqn:M; [right|left; eauto].
+        intros i Hi. destruct (HE i Hi) as [|(r' & x' & it' & E)]; auto.
+        inversion E; subst. exact M.
+      + right. intros i Hi. destruct (HE i Hi) as [|(r' & x' & it' & E)]; auto. discriminate.
+    - right. intros i Hi. destruct (HE i Hi) as [|(r' & x' & it' & E)]; auto.
+      destruct k'; discriminate. }
+  destruct D as [(l & items & -> & -> & M)|HA].
+  - subst fuel. simpl in R. rewrite M, Nat.eqb_refl in R.
+    rewrite load_items_S, load_S. unfold reader_iter, root_first. rewrite R.
+    simpl. rewrite app_nil_r. repeat split; auto. eexists. split; [reflexivity|].
+    apply (api_trees_accepted V ml mi (Node r [(0, Leaf (inline_id r) items)])). exact HI.
+  - clear R. set (t := Node r ((x, c) :: k')) in *.
+    assert (W : wfn t) by (exists true, None, None; exact HI).
+    assert (E : leaf_ids V t = [] ++ leaf_ids V t ++ []) by (rewrite app_nil_r; reflexivity).
+    destruct (loads_all t stored s HN HC HA t (sub_refl t) W fuel (Nat.le_succ_diag_r _) [] [] E)
+      as [A B].
+    change (tid V t) with r in A, B. split; [exact B|]. split.
+    + unfold reader_iter, root_first.
+      pose proof (rec_of t stored s HN HC HA t (sub_refl t)) as R.
+      rewrite getstate_all in R by (auto; apply sub_refl).
+      destruct (wfn_hd _ W) as (j & q & F & G).
+      unfold t in R, G. simpl in R, G. rewrite G in R. rewrite R. cbv beta iota. rewrite app_nil_l.
+      replace (Some j) with (hd_error (map fst (leaves V t))) by (fold (leaf_ids V t); rewrite F; reflexivity).
+      rewrite (chain_all t stored s HN HC HA (leaves V t) []); auto.
+      * symmetry. apply contents_leaves.
+      * pose proof (sl_length _ _ (sl_leaf_ids t)) as Q. unfold leaf_ids in Q.
+        rewrite map_length in Q. subst fuel. lia.
+    + eexists. split; [exact A|]. apply (api_trees_accepted V ml mi (nz t)). apply nz_Inv. exact HI.
+Qed.
+(* ---------- the guard ---------- *)
+Definition neb_all (st : list nat) :=
+  fix all (l : list (Z * tree)) : Prop :=
+    match l with [] => True | (_, c) :: r => no_embed_below V false st c /\ all r end.
+Lemma neb_Node b st i kids :
+  no_embed_below V b st (Node i kids) =
+  ((match kids with [(_, Leaf l _)] => b = true \/ mem l st = true | _ => True end) /\ neb_all st kids).
+Proof. reflexivity. Qed.
+Lemma neb_all_Forall st l :
+  neb_all st l <-> Forall (fun sc => no_embed_below V false st (snd sc)) l.
+Proof.
+  induction l as [|[s c] r IH]; simpl.
+  - split; auto.
+  - rewrite IH. split.
+    + intros [A B]. constructor; auto.
+    + intros A. inversion A; subst. auto.
+Qed.
+Lemma guard_mono st st' : (forall x, mem x st = true -> mem x st' = true) ->
+  forall n b, no_embed_below V b st n -> no_embed_below V b st' n.
+Proof.
+  intros M. induction n using (tree_ind' V); intros b G; auto.
+  rewrite neb_Node in *. destruct G as [A B]. split.
+  - destruct kids as [|[x [l items|]] [|]]; auto. destruct A; auto.
+  - rewrite neb_all_Forall in *. rewrite Forall_forall in *. intros sc I. apply (H _ I). auto.
+Qed.
+Lemma guard_sub st : forall n b, no_embed_below V b st n ->
+  forall m j x l items, sub m n -> m = Node j [(x, Leaf l items)] ->
+    (b = true /\ m = n) \/ mem l st = true.
+Proof.
+  induction n using (tree_ind' V); intros b G m j x l' items Sb E.
+  - apply sub_inv in Sb. destruct Sb as [Sb|(? & ? & ? & ? & Sb & _)]; [|discriminate].
+    subst. discriminate.
+  - rewrite neb_Node in G. destruct G as [A B]. apply sub_inv in Sb.
+    destruct Sb as [Sb|(i' & kids' & s & c & Q & I & Sb)].
+    + rewrite Sb in E. inversion E; subst i kids. subst m. destruct A; auto.
+    + inversion Q; subst i' kids'. rewrite neb_all_Forall in B. rewrite Forall_forall in *.
+      destruct (H _ I false (B _ I) m j x l' items Sb E) as [[C _]|C]; [discriminate|auto].
+Qed.
+
+Section Commit.
+Variable t : tree.
+
+Lemma getstate_indep st st' :
+  no_embed_below V true st t ->
+  (forall x, mem x st = true -> mem x st' = true) ->
+  (forall r x l items, t = Node r [(x, Leaf l items)] -> mem l st = false -> mem l st' = false) ->
+  forall m, sub m t -> getstate V st' t m = getstate V st t m.
+Proof.
+  intros G M E m Sb. destruct m as [i items|j kids]; [reflexivity|].
+  destruct kids as [|[x [l items|]] [|]]; try reflexivity. simpl.
+  destruct (guard_sub _ _ _ G _ _ _ _ _ Sb eq_refl) as [[_ C]|C].
+  - destruct (mem l st) eqn:Q; [rewrite (M _ Q); reflexivity|].
+    rewrite (E _ _ _ _ (eq_sym C) Q). reflexivity.
+  - rewrite C, (M _ C). reflexivity.
+Qed.
+Definition seq_ok (seq st : list nat) : Prop :=
+  forall i, In i seq -> forall r x items, t = Node r [(x, Leaf i items)] -> mem i st = true.
+Definition dump_st (st : list nat) (i : nat) (n : tree) : list nat :=
+  fold_left (fun acc x => add x acc) (i :: refs V (getstate V st t n)) st.
+
+Lemma step_leaf st i n :
+  find_node V t i = Some n ->
+  (forall r x items, t = Node r [(x, Leaf i items)] -> mem i st = true) ->
+  forall r x l items, t = Node r [(x, Leaf l items)] -> mem l st = false ->
+    mem l (dump_st st i n) = false.
+Proof.
+  intros F K r x l items E Q. apply mem_false. intros I.
+  unfold dump_st in I. apply fold_add_In in I. destruct I as [I|I].
+  - destruct I as [I|I].
+    + subst i. rewrite (K _ _ _ E) in Q. discriminate.
+    + subst t. rewrite find_node_Node in F. simpl in F.
+      destruct (Nat.eqb r i).
+      * inversion F; subst n. simpl in I. rewrite Q in I. simpl in I.
+        rewrite Nat.eqb_refl in I. destruct I.
+      * destruct (Nat.eqb l i); [|discriminate]. inversion F; subst n.
+        simpl in I. rewrite Nat.eqb_refl in I. destruct I.
+  - apply mem_In in I. congruence.
+Qed.
+Lemma step_mono st i n x : mem x st = true -> mem x (dump_st st i n) = true.
+Proof. intros A. apply fold_add_mem. auto. Qed.
+
+Lemma commit_seq_spec : forall seq st s st' s',
+  no_embed_below V true st t -> seq_ok seq st -> commit_seq V t seq st s = (st', s') ->
+  (forall x, mem x st = true -> mem x st' = true) /\
+  (forall m, sub m t -> getstate V st' t m = getstate V st t m) /\
+  (forall i, sget V s' i = sget V s i \/
+             (In i seq /\ exists n, find_node V t i = Some n /\ sget V s' i = Some (getstate V st' t n))) /\
+  (forall i n, In i seq -> find_node V t i = Some n ->
+     sget V s' i = Some (getstate V st' t n) /\
+     mem i st' = true /\ forall x, In x (refs V (getstate V st' t n)) -> mem x st' = true).
+Proof.
+  induction seq as [|i rest IH]; intros st s st' s' G K C.
+  - simpl in C. inversion C; subst. split; [auto|]. split; [auto|]. split; [auto|]. intros i n [].
+  - simpl in C. destruct (find_node V t i) as [n|] eqn:F.
+    + fold (dump_st st i n) in C.
+      assert (K1 : seq_ok rest (dump_st st i n)).
+      { intros j Hj r x items E. apply step_mono. apply (K j (or_intror Hj) _ _ _ E). }
+      assert (G1 : no_embed_below V true (dump_st st i n) t).
+      { eapply guard_mono; [|exact G]. intros; apply step_mono; auto. }
+      assert (D1 : forall m, sub m t -> getstate V (dump_st st i n) t m = getstate V st t m).
+      { apply getstate_indep; auto.
+        - intros; apply step_mono; auto.
+        - apply step_leaf; auto. intros r x items E. apply (K i (or_introl eq_refl) _ _ _ E). }
+      destruct (IH _ _ _ _ G1 K1 C) as (A & B & Cc & D).
+      assert (Sn : sub n t) by (apply (find_some _ _ _ F)).
+      split; [intros; apply A; apply step_mono; auto|].
+      split; [intros m Sm; rewrite B, D1; auto|].
+      split.
+      * intros j. destruct (Cc j) as [E|(I & m & Fm & E)].
+        -- simpl in E. destruct (Nat.eqb j i) eqn:Q.
+           ++ apply Nat.eqb_eq in Q. subst j. right. split; [left; auto|].
+              exists n. split; auto. rewrite E, B, D1; auto.
+           ++ left. exact E.
+        -- right. split; [right; auto|]. exists m. auto.
+      * intros j m [I|I] Fm.
+        -- subst j. rewrite F in Fm. inversion Fm; subst m. split; [|rewrite B, D1 by auto; split].
+           ++ destruct (Cc i) as [E|(_ & m & Fm' & E)].
+              ** simpl in E. rewrite Nat.eqb_refl in E. rewrite E, B, D1; auto.
+              ** rewrite F in Fm'. inversion Fm'; subst m. exact E.
+           ++ apply A. apply fold_add_mem. left. left. reflexivity.
+           ++ intros x Hx. apply A. apply fold_add_mem. left. right. exact Hx.
+        -- apply (D j m I Fm).
+    + assert (K1 : seq_ok rest st) by (intros j Hj; apply K; right; auto).
+      destruct (IH _ _ _ _ G K1 C) as (A & B & Cc & D).
+      split; [auto|]. split; [auto|]. split.
+      * intros j. destruct (Cc j) as [E|(I & m & Fm & E)]; auto.
+        right. split; [right; auto|]. exists m. auto.
+      * intros j m [I|I] Fm; [subst; congruence|]. apply (D j m I Fm).
+Qed.
+End Commit.
+
 
 End Store.
